@@ -91,6 +91,16 @@ pub struct Exec {
     peer: Option<crate::peerhdr::PeerHdr>,
 }
 
+/// what the relay path did with a block
+enum Relayed {
+    /// header not accepted: the block goes nowhere
+    Refused,
+    /// header accepted, the block was not handed to the chain service by the handler
+    Direct,
+    /// header accepted and the handler has queued the block at the chain service
+    Queued,
+}
+
 fn hex(b: &packed::Byte32) -> String {
     format!("{:#x}", b)
 }
@@ -618,6 +628,7 @@ impl Exec {
         if finished && self.res.violation.is_none() {
             let r = std::panic::catch_unwind(std::panic::AssertUnwindSafe(|| {
                 self.node.drain();
+                self.pull_relay_verdicts();
                 self.observe("final_drain");
                 self.final_checks();
             }));
@@ -643,6 +654,7 @@ impl Exec {
     }
 
     fn step(&mut self, op: &Op) {
+        self.pull_relay_verdicts();
         self.eff_ops.push(op.clone());
         match op {
             Op::Deliver { b } => {
@@ -659,9 +671,26 @@ impl Exec {
                     return;
                 }
                 let v = self.w.blocks[*b].view.clone();
+                // header_path 2: the relay handler itself has handed the block to the chain service
+                let mut relayed = false;
                 if self.sc.header_stage {
                     self.tick();
-                    let pass = if self.sc.header_path == 1 && !self.sc.miner_blocks.contains(b) { self.peer_header_stage(*b) } else { self.header_stage(*b, &v) };
+                    let pass = if self.sc.miner_blocks.contains(b) {
+                        self.header_stage(*b, &v)
+                    } else {
+                        match self.sc.header_path {
+                            1 => self.peer_header_stage(*b),
+                            2 => match self.relay_header_stage(*b, &v) {
+                                Relayed::Refused => false,
+                                Relayed::Direct => true,
+                                Relayed::Queued => {
+                                    relayed = true;
+                                    true
+                                }
+                            },
+                            _ => self.header_stage(*b, &v),
+                        }
+                    };
                     if !pass {
                         self.eff_ops.pop();
                         return;
@@ -681,6 +710,10 @@ impl Exec {
                 if self.delivered.len() <= self.sc.assume_valid_first && self.sc.assume_valid_first > 0 && self.w.blocks[*b].chain_valid {
                     self.res.faults.inc("delivered_with_scripts_disabled");
                     self.node.deliver_with(&v, Some(ckb_verification_traits::Switch::DISABLE_SCRIPT));
+                } else if relayed {
+                    // stage 1 on the request the relay handler queued (its callback, not ours:
+                    // error verdicts come back as bans, see pull_relay_verdicts)
+                    while self.node.chain.step_insert_queued() {}
                 } else {
                     self.node.deliver(&v);
                 }
@@ -1127,6 +1160,183 @@ impl Exec {
             self.peer.as_mut().unwrap().replace_peer();
         }
         b_accepted
+    }
+
+    /// header_path 2: a block the relay handler handed to the chain service carries the handler's
+    /// verdict callback; an error verdict reaches the simulator as a ban ("block 0x.. is invalid,
+    /// reason: ..") on the relay context. They are filed with the verdicts of the other deliveries.
+    fn pull_relay_verdicts(&mut self) {
+        let Some(p) = self.peer.as_mut() else { return };
+        for r in p.take_relay_bans() {
+            // "BlockIsInvalid(401): block Byte32(0x..) is invalid, reason: .."
+            let Some(at) = r.find("block ").and_then(|a| r[a..].find("0x").map(|x| a + x + 2)) else {
+                self.res.probes.inc("relay_late_ban_other");
+                continue;
+            };
+            let hexs: String = r[at..].chars().take(64).collect();
+            let mut raw = [0u8; 32];
+            let ok = hexs.len() == 64 && (0..32).all(|i| u8::from_str_radix(&hexs[2 * i..2 * i + 2], 16).map(|x| raw[i] = x).is_ok());
+            if !ok {
+                self.res.probes.inc("relay_late_ban_other");
+                continue;
+            }
+            let h = packed::Byte32::from_slice(&raw).unwrap();
+            let reason = r.split("reason: ").nth(1).unwrap_or(&r).to_string();
+            self.res.probes.inc("relay_block_error_verdict");
+            self.node.verdicts.lock().unwrap().push((h, Err(reason)));
+        }
+    }
+
+    /// C03, header_path 2: the header stage as the compact-block relay runs it. The simulated peer
+    /// relays the block as a `CompactBlock` (every transaction prefilled) to the real
+    /// `Relayer::received`: staleness and size checks, status shortcuts, parent lookup, the header
+    /// check over the relay's own median-time view (pending compact blocks first, then header map
+    /// and store), reconstruction, `accept_block`. Same oracle as `peer_header_stage` for the header
+    /// part, with the demands that are sound for this path:
+    ///  * a header that breaks a header-only rule must not be held valid afterwards;
+    ///  * the header of a block without any mutation of its own, whose parent the node holds as a
+    ///    header, which is neither stale nor known, must be held valid afterwards.
+    /// Whatever the relay path does not take (parent never announced, stale, known already, initial
+    /// block download) goes through the headers-first path instead, as in a real node.
+    fn relay_header_stage(&mut self, b: usize, v: &ckb_types::core::BlockView) -> Relayed {
+        use crate::peerhdr::{Ann, PeerHdr};
+        let via_sync = |me: &mut Exec, why: &str| -> Relayed {
+            me.res.probes.inc(&format!("relay_left_to_sync:{why}"));
+            if me.peer_header_stage(b) { Relayed::Direct } else { Relayed::Refused }
+        };
+        if self.peer.is_none() {
+            let rx = self.node.pack.take_relay_tx_receiver();
+            let ss = Arc::new(ckb_sync::SyncShared::new(self.node.shared.clone(), Default::default(), rx));
+            self.peer = Some(PeerHdr::new(ss, self.node.chain.controller().clone()));
+        }
+        let chain_bad: BTreeSet<usize> = self.node.verdicts.lock().unwrap().iter().filter(|(_, r)| r.is_err()).filter_map(|(h, _)| self.w.by_hash.get(h).cloned()).collect();
+        let p = self.w.blocks[b].parent.unwrap();
+        let n = self.w.blocks[b].number;
+        let before = self.peer.as_ref().unwrap().state.get(&b).cloned();
+        let pstate = self.peer.as_ref().unwrap().state.get(&p).cloned();
+        if self.node.shared.is_initial_block_download() {
+            return via_sync(self, "ibd");
+        }
+        if before.is_some() || self.delivered_set.contains(&b) || chain_bad.contains(&b) {
+            return via_sync(self, "known");
+        }
+        if p != 0 && pstate != Some(Ann::Accepted) {
+            // (the relay handler would ask for headers and wait for the headers-first path)
+            return via_sync(self, "parent_not_accepted");
+        }
+        let (tip_n, epoch_len) = {
+            let snap = self.node.shared.snapshot();
+            (snap.tip_number(), snap.epoch_ext().length())
+        };
+        if tip_n.saturating_sub(epoch_len) > n {
+            return via_sync(self, "stale");
+        }
+        if self.node.chain.insert_pending() != 0 {
+            self.res.harness_error = Some("requests queued at the chain service before a relay".into());
+        }
+        let parent_invalid = p != 0 && chain_bad.contains(&p);
+        let out = match self.peer.as_mut().unwrap().relay_compact(v) {
+            Ok(o) => o,
+            Err(e) => {
+                self.viol("C03", "relay_handler_did_not_complete", e);
+                return Relayed::Refused;
+            }
+        };
+        self.peer.as_mut().unwrap().sent_once.insert(b);
+        let hash = v.hash();
+        let seen = self.peer.as_ref().unwrap().seen(&hash);
+        let banned = !out.banned.is_empty();
+        if banned {
+            self.res.probes.inc("relay_peer_banned");
+        }
+        let queued = self.node.chain.insert_pending();
+        let model = self.w.header_verdict(b, self.now);
+        let pristine = self.w.blocks[b].invalid.is_none();
+        self.il.write_u64(0x4a00 + seen.valid as u64);
+        let what: String;
+        match model {
+            Ok(()) => {
+                what = if pristine { "ok".into() } else { "ok_block_mutant".into() };
+                if seen.valid {
+                    self.res.probes.inc("relay_header_passed");
+                    if parent_invalid {
+                        // the relay's header part does not look at the parent's invalid mark
+                        self.res.probes.inc("relay_header_passed_under_invalid_parent");
+                    }
+                    if self.w.blocks[b].view.timestamp() == self.now + crate::model::ALLOWED_FUTURE_MS {
+                        self.res.probes.inc("relay_header_at_future_bound_accepted");
+                    }
+                    if self.w.blocks[b].view.timestamp() == self.w.median_time(&self.w.chain_of(p)) + 1 {
+                        self.res.probes.inc("relay_header_at_median_plus_one_accepted");
+                    }
+                } else if pristine {
+                    let d = format!("block #{b} (n={n}) carries no mutation, its header meets every header rule at clock {}, its parent #{p} is held as a header (invalid mark: {parent_invalid}), tip {tip_n}, but the compact-block relay did not accept the header (known {} invalid {} banned {:?})", self.now, seen.known, seen.invalid, out.banned.first());
+                    self.viol("C03", "relay_path_refuses_valid_header", d);
+                } else {
+                    // the relay refuses some malformed blocks before or right after the header check
+                    self.res.probes.inc(&format!("relay_refused_block_mutant:{}", self.w.blocks[b].invalid.clone().unwrap_or_default()));
+                }
+            }
+            Err(kind) => {
+                what = kind.into();
+                if matches!(kind, "pow" | "number" | "ts_too_old" | "ts_too_new") {
+                    if seen.valid {
+                        let d = format!("block #{b} (n={n}): the header breaks the rule `{kind}` at clock {} but the compact-block relay holds it as valid", self.now);
+                        self.viol("C03", &format!("relay_path_accepts_invalid_header:{kind}"), d);
+                    } else {
+                        self.res.probes.inc(&format!("relay_header_refused:{kind}"));
+                        self.res.nontrivial = true;
+                        if kind == "ts_too_new" {
+                            self.peer.as_mut().unwrap().too_new.insert(b);
+                            if seen.invalid {
+                                self.res.probes.inc("relay_header_too_new_marked_invalid_permanently");
+                            }
+                        } else {
+                            if !seen.invalid {
+                                self.res.probes.inc("relay_header_refused_without_mark");
+                            }
+                            if !banned {
+                                self.res.probes.inc("relay_header_refused_without_ban");
+                            }
+                        }
+                    }
+                } else if seen.valid {
+                    self.res.probes.inc(&format!("relay_header_left_to_chain:{kind}"));
+                } else {
+                    self.res.probes.inc(&format!("relay_header_refused:{kind}"));
+                    self.res.nontrivial = true;
+                }
+                if seen.invalid {
+                    self.peer.as_mut().unwrap().state.insert(b, Ann::Marked(kind));
+                }
+            }
+        }
+        if !seen.valid && seen.invalid && self.peer.as_ref().unwrap().state.get(&b).is_none() {
+            self.peer.as_mut().unwrap().state.insert(b, Ann::Marked("relay"));
+        }
+        self.ev(&format!("relay block {b} n={n} [{what}] -> valid {} known {} invalid {} banned {} queued {}", seen.valid, seen.known, seen.invalid, banned, queued));
+        if banned {
+            self.peer.as_mut().unwrap().replace_peer();
+        }
+        if !seen.valid {
+            if queued != 0 {
+                self.viol("C03", "relay_path_hands_over_block_without_valid_header", format!("block #{b} (n={n}) was handed to the chain service although its header is not held valid"));
+            }
+            return Relayed::Refused;
+        }
+        self.peer.as_mut().unwrap().state.insert(b, Ann::Accepted);
+        if self.peer.as_mut().unwrap().too_new.remove(&b) {
+            self.res.probes.inc("relay_header_accepted_after_clock_moved");
+        }
+        if queued != 0 {
+            self.res.probes.inc("relay_block_reconstructed_and_handed_over");
+            Relayed::Queued
+        } else {
+            // uncles the node does not have (it asks the peer for them), an uncle it holds invalid,
+            // a malformed compact block: the header is in, the block comes by the sync path
+            self.res.probes.inc("relay_block_not_handed_over");
+            Relayed::Direct
+        }
     }
 
     /// C19 (filters): after a builder pass every main-chain block has a filter that contains exactly
